@@ -30,6 +30,8 @@ def gates(c, tier):
     out = [f"no filter of kind {k}" for k in KINDS if c.get("kind:" + k, 0) == 0]
     if c.get("deep-trees", 0) == 0:
         out.append("no deep tree")
+    if c.get("shared-sub-filter-objects", 0) == 0:
+        out.append("no tree with shared sub-filter objects")
     for p in ("first:28", "last:28", "first:29", "last:29", "first:2a", "last:2a", "first:5c", "last:5c", "first:00", "last:00", "first:hi", "last:hi"):
         if c.get("pos:" + p, 0) == 0:
             out.append(f"special octet never at position {p}")
@@ -64,9 +66,10 @@ def depth(f):
     return 0
 
 
-def check_one(f, as_bytearray=False):
+def check_one(f, as_bytearray=False, share=False):
     out = []
-    obj = av.b_filter(av.fresh(f, as_bytearray))  # the tree owns its values: they die with it
+    # the tree owns its values: they die with it; share: equal sub-trees are ONE object used in several places
+    obj = av.b_filter(av.fresh(f, as_bytearray), {} if share else None)
     try:
         with cpu_limit(20):
             s = str(obj)
@@ -172,6 +175,11 @@ def run_shard(ctx: Ctx, acc: Acc):
             acc.sample({"tree": f, "text": str(av.b_filter(f))})
         for key, what in check_one(f):
             acc.violation(key, what, {"tree": f})
+        if i % 5 == 2:
+            acc.case()
+            acc.count("shared-sub-filter-objects")
+            for key, what in check_one(f, False, True):
+                acc.violation(key, what + " [equal sub-trees built as one shared object]", {"tree": f, "share": True})
         if i % 8 == 3:
             acc.case()
             acc.count("values-held-in-bytearrays")
@@ -191,6 +199,8 @@ def deep_tree(seed, d):
 
 
 def replay(w):
+    if w.get("share"):
+        return check_one(to_tuple(w["tree"]), False, True)
     if w.get("deep"):
         return check_one(deep_tree(*w["deep"]))
     if w.get("as_bytearray"):
